@@ -740,8 +740,8 @@ func TestVerifC18Blacklist(t *testing.T) {
 	vk.Quiet()
 	run := vk.Start(t, "C18", "blacklist")
 	defer run.Finish()
-	run.Rule("seeded time-lines on a fresh IPManager: entries (single address or /24 network, duration 80/160 ms or permanent) are added, re-added, removed; IsAllowed for an address of the entry is judged 'must refuse' when the query certainly lies between the return of an AddToBlacklist and call+duration of it with no removal since; distinct = event-kind sequence")
-	rounds := run.Pick(3, 40)
+	run.Rule("seeded time-lines on a fresh IPManager: entries (single address or /24 network, duration 80/160 ms or permanent) are added, re-added, removed, clean-up passes run, and at 'restart' events a fresh IPManager is loaded from the same storage (restarted process / second node) and must refuse every address covered by a live exact or network entry; IsAllowed for an address of the entry is judged 'must refuse' when the query certainly lies between the return of an AddToBlacklist and call+duration of it with no removal since; distinct = event-kind sequence")
+	rounds := run.Pick(4, 40)
 	const par = 16
 	seedR := run.Rand("bl")
 	for round := 0; round < rounds && run.Violations() < 20; round++ {
@@ -754,7 +754,9 @@ func TestVerifC18Blacklist(t *testing.T) {
 				r := rand.New(rand.NewSource(seed))
 				ctx, cancel := context.WithCancel(context.Background())
 				defer cancel()
-				m := NewIPManager(storage.NewMemoryStorage(ctx), ctx)
+				store := storage.NewMemoryStorage(ctx)
+				m := NewIPManager(store, ctx)
+				storeTainted := false
 				origin := time.Now()
 				now := func() time.Duration { return time.Since(origin) }
 				a, b := r.Intn(250), r.Intn(250)
@@ -840,6 +842,59 @@ func TestVerifC18Blacklist(t *testing.T) {
 						m.cleanup()
 						kinds = append(kinds, "cleanup")
 						log = append(log, c18Event{I: ev, Kind: "cleanup", Cus: now().Microseconds()})
+					case k < 58:
+						// "restart / second node": a fresh IPManager loads the list from the same storage and
+						// is asked about the address. Only done while no timed entry is near its expiry, so
+						// that the second manager never holds an expired record (its lazy removal would
+						// write to the shared storage).
+						c := now()
+						near := storeTainted
+						for _, e := range entries {
+							if e.live && e.dur > 0 && c >= e.iv.C+e.dur-c18Margin && c <= e.iv.R+e.dur+c18Margin {
+								near = true
+							}
+						}
+						if near {
+							run.Count("restarts_skipped_near_expiry", 1)
+							continue
+						}
+						ctx2, cancel2 := context.WithCancel(ctx)
+						m2 := NewIPManager(store, ctx2)
+						ok, _ := m2.IsAllowed(host)
+						rr := now()
+						cancel2()
+						kinds = append(kinds, "restart")
+						log = append(log, c18Event{I: ev, Kind: "new IPManager on the same storage; IsAllowed " + host, Cus: c.Microseconds(), Rus: rr.Microseconds(), Res: fmt.Sprint(ok)})
+						must, viaHost, viaNet := false, false, false
+						for _, e := range entries {
+							if !e.live {
+								continue
+							}
+							if e.dur == 0 || rr < e.iv.C+e.dur {
+								must = true
+								if e.key == host {
+									viaHost = true
+								} else {
+									viaNet = true
+								}
+							} else if !(c > e.iv.R+e.dur) {
+								storeTainted = true // a record may have been loaded and expired meanwhile
+							}
+						}
+						run.Count("restarts", 1)
+						if must {
+							run.Count("obs_must_refuse_after_reload", 1)
+							if viaNet && !viaHost {
+								run.Count("obs_must_refuse_after_reload_via_network_entry_only", 1)
+							}
+							if ok {
+								sig := "C18:blacklisted-address-allowed-after-reload|entry=exact"
+								if viaNet && !viaHost {
+									sig = "C18:blacklisted-address-allowed-after-reload|entry=network"
+								}
+								run.Violation(sig, map[string]any{"host": host, "cidr": cidr, "events": log})
+							}
+						}
 					default:
 						c := now()
 						ok, _ := m.IsAllowed(host)
@@ -916,6 +971,8 @@ func TestVerifC18Blacklist(t *testing.T) {
 	run.Floor("queries_certain_pct", 90)
 	run.Floor("obs_must_refuse", 30)
 	run.Floor("obs_allowed_when_not_listed", 10)
+	run.Floor("obs_must_refuse_after_reload", 10)
+	run.Floor("obs_must_refuse_after_reload_via_network_entry_only", 3)
 }
 
 // ───────────────────────── (d) token bucket ─────────────────────────
@@ -971,6 +1028,8 @@ func TestVerifC18TokenBucket(t *testing.T) {
 	cfgs := []rc{{50, 5}, {200, 1}, {20, 10}, {1000, 3}}
 	nCalls := run.Pick(350, 3000)
 	sleepCap := time.Duration(run.Pick(5, 40)) * time.Second
+	var freshRL *RateLimiter
+	var freshCancel context.CancelFunc
 	var outer sync.WaitGroup
 	runCfg := func(ci int, c rc) {
 		defer outer.Done()
@@ -1092,6 +1151,84 @@ func TestVerifC18TokenBucket(t *testing.T) {
 		go runCfg(ci, c)
 	}
 	outer.Wait()
+
+	// ---- first requests of fresh addresses, issued concurrently ----
+	// No bucket exists yet: G goroutines released from a spin barrier make the very first
+	// requests of the address. The same exact bound applies (the address owns ONE bucket).
+	nFresh := run.Pick(300, 4000)
+	for ai := 0; ai < nFresh && run.Violations() < 20; ai++ {
+		burst := 1 + ai%5
+		rate := []int{10, 50, 200}[ai%3]
+		G := []int{8, 16, 32}[(ai/5)%3]
+		if ai%40 == 0 {
+			if freshCancel != nil {
+				freshCancel()
+			}
+			var fctx context.Context
+			fctx, freshCancel = context.WithCancel(context.Background())
+			freshRL = NewRateLimiter(&RateLimitConfig{Rate: rate, Burst: burst, TTL: time.Hour}, nil, fctx)
+		} else {
+			freshRL.SetIPRateLimit(rate, burst) // public API: new rate/burst, bucket map emptied
+		}
+		ip := fmt.Sprintf("10.40.%d.%d", (ai>>8)&255, ai&255)
+		origin := time.Now()
+		ops := make([][]c18Take, G)
+		var ready atomic.Int32
+		var wg sync.WaitGroup
+		okBarrier := atomic.Bool{}
+		okBarrier.Store(true)
+		for g := 0; g < G; g++ {
+			wg.Add(1)
+			go func(g int) {
+				defer wg.Done()
+				ready.Add(1)
+				for spins := 0; int(ready.Load()) < G; spins++ {
+					if spins > 200 {
+						runtime.Gosched()
+					}
+					if spins > 50_000_000 {
+						okBarrier.Store(false)
+						break
+					}
+				}
+				for k := 0; k < 2; k++ {
+					c0 := time.Since(origin).Nanoseconds()
+					ok := freshRL.AllowIP(ip)
+					r0 := time.Since(origin).Nanoseconds()
+					ops[g] = append(ops[g], c18Take{c0, r0, ok, g})
+				}
+			}(g)
+		}
+		wg.Wait()
+		if !okBarrier.Load() {
+			run.Count("watchdog", 1)
+			continue
+		}
+		var all []c18Take
+		acc := 0
+		for _, o := range ops {
+			all = append(all, o...)
+			for _, x := range o {
+				if x.OK {
+					acc++
+				}
+			}
+		}
+		run.Eval(len(all))
+		run.Count("fresh_addresses", 1)
+		run.Count("fresh_first_requests_accepted", int64(acc))
+		run.Count("fresh_first_requests_refused", int64(len(all)-acc))
+		run.Distinct(fmt.Sprintf("fresh|%d/%d|G=%d|accepted=%d", rate, burst, G, acc))
+		if bad, wit, _ := c18CheckBucket(all, rate, burst); bad {
+			wit["rate"], wit["burst"], wit["address"], wit["goroutines"], wit["accepted_total"] = rate, burst, ip, G, acc
+			run.Violation("C18:rate-exceeded|concurrent-first-requests", wit)
+		}
+	}
+	if freshCancel != nil {
+		freshCancel()
+	}
+	run.Floor("fresh_addresses", int64(nFresh*9/10))
+	run.Floor("fresh_first_requests_refused", int64(nFresh))
 	run.Floor("takes_accepted", 200)
 	run.Floor("takes_refused", 200)
 	run.Floor("accepted_after_a_refusal(refill observed)", 50)
